@@ -40,6 +40,10 @@ CLAIMED = {
          "exhaustive small-size + chunk-boundary enumeration of payloads, buffer splits, block/chunk compositions, truncations and byte flips against an independent Hadoop block-stream reader and snappy decoder",
          "Client compress -> independent reader = input = client decompress for sizes 0..64 and around 1-3 chunks (218421 B) x 3 content classes x every buffer split; conforming server streams from an independent writer in every composition of <=3 blocks x 1..3 chunks; every truncation and byte substitution of small streams must give an error or exactly what the independent reader returns (raw snappy has no checksum). Streams that declare huge lengths run in a 1 GiB sub-process.",
          "Differential oracle for corruption; golang/snappy is the client's codec, the check uses its own decoder.", "DESIGN.md §4 C15"),
+ "C04": ("model_checking",
+         "stateless model checking of the real top-level client over a simulated cluster: bounded fault scripts x cache state x event position x schedules up to a deviation bound; the cluster executor is the server-side observer",
+         "Every sequence of <=2 events from a 19-event menu (move, split, merge, eight transient exception classes, server crash / stopped / aborted, connection reset, meta move, meta NSRE, ZooKeeper errors) is applied before or concurrently with 1-2 requests on a warm or cold cache; two regions behind one shared connection; a request held in flight while the fault hits, with the fault position enumerated over the first server-side attempts; application exception and dropped table as fatal outcomes. All schedules with <=1-2 deviations. Oracle: success with the request's own value, executed by a server hosting the owning region at that moment (the executor refuses stale names); fatal errors unchanged and not re-executed; nothing blocked.",
+         "Tier L (simulated region clients); cluster model fidelity; deviation bound; scripts of length <=2 (3 sampled in thorough).", "DESIGN.md §4 C04"),
  "C08": ("model_checking",
          "explicit-state breadth-first search over the real location cache, every transition executed on the implementation and judged against an interval model",
          "All 1683 reachable states of a universe of every interval over 3 boundary points x 2 ids (plus a prefix-named table) with put/del of every region as transitions (87k per configuration), repeated with 0..130 filler regions to move entries across B-tree pages; invariant (no two cached regions of a table intersect) in every state, transition relation (evict-all-older / unchanged) on every edge, dead marks, and a differential rebuild from the canonical state.",
